@@ -88,6 +88,9 @@ def main():
                 results.append((m, "nopattern"))
                 continue
             src = src.replace(m["old"], m["new"], 1)
+            if "then" in m:
+                assert m["then"]["old"] in src, "second pattern not found"
+                src = src.replace(m["then"]["old"], m["then"]["new"], 1)
             open(path, "w").write(src)
             rc, out, dt = run_check(m["check"], scratch, m.get("cases"))
             verdict = "CAUGHT" if rc == 1 and "VIOLATION" in out else ("HARNESS-ERR" if rc == 2 else "MISSED")
